@@ -218,7 +218,14 @@ class MappingStorage:
         if gc:
             # Step 2, GC.  A simple sweep+copy
             new_data = BTrees.OOBTree.OOBTree()
+            # Objects written after the pack time are roots as well:
+            # they may be referenced only by transactions that are
+            # still to come (or that a connection has not yet
+            # committed), so they must not be collected.
             to_copy = {ZODB.utils.z64}
+            to_copy.update(
+                oid for oid, tid_data in self._data.items()
+                if tid_data.maxKey() > stop)
             while to_copy:
                 oid = to_copy.pop()
                 tid_data = self._data.pop(oid)
